@@ -6,12 +6,14 @@ import Proofs.F32Div
 import Proofs.F64Div
 import Proofs.F32Ident
 import Proofs.F64Ident
+import Proofs.F32Invert
+import Proofs.F64Invert
 /-! C19 — 3x3 algebra: the exact clauses, generic in the element values (hence for every f32/f64 bit pattern, both FMA
 modes): transpose is an exact involution, `mul_vec` and `mul_arr` are the same expression, `scalar_div` and
 `component_mul` are element-wise, rows of `mul_mat` are `mul_vec` of the transposed operand. The accuracy clauses
 are proved below over the reals for finite entries of magnitude <= 2, both formats, both FMA modes: `mul_vec`/`mul_arr`, `mul_mat`, `dot`, `cross`,
-`component_mul`, `scalar_div` are within 1e-5*max(1,|exact|) of the exact result (in fact within 3e-6 absolute). NOT proved: `A*invert(A) = I` within
-1e-4 and the bit-exact identity() clause (correspondence + exact oracle). -/
+`component_mul`, `scalar_div` are within 1e-5*max(1,|exact|) of the exact result (in fact within 3e-6 absolute). `A*invert(A)` and `invert(A)*A` are within 1e-4 of the identity for |det| >= 1/2 (`invert_accurate32/64`, proved bound 6.3e-5), and multiplying by
+`identity()` returns every entry with exactly its real value (`identity_*`). -/
 namespace C19
 
 theorem transpose_involution32 (m : Mat32.M3) : m.transpose.transpose = m := rfl
@@ -283,5 +285,21 @@ theorem identity_mulMat64 (fm : Bool) (a : Mat64.M3) (ha : F64.M3.Ok a) :
   exact ⟨⟨c1.1, c2.1, c3.1⟩, ⟨c1.2.1, c2.2.1, c3.2.1⟩, ⟨c1.2.2, c2.2.2, c3.2.2⟩⟩
 
 end identity64
+
+/-! ### invert -/
+
+/-- **A * invert(A) = I and invert(A) * A = I within 1e-4** for finite entries of magnitude at most 2 and |det A| ≥ 1/2 (exact
+determinant `F32.detR`), all 18 entries, both FMA modes, binary32 -/
+theorem invert_accurate32 (fm : Bool) (m : Mat32.M3) (hm : OkM32 m) (hdet : 1 / 2 ≤ |F32.detR m|) : F32.InvClose fm m := F32.invert_close fm m hm hdet
+
+/-- the same for the binary64 instantiation -/
+theorem invert_accurate64 (fm : Bool) (m : Mat64.M3) (hm : OkM64 m) (hdet : 1 / 2 ≤ |F64.detR m|) : F64.InvClose fm m := F64.invert_close fm m hm hdet
+
+/-- the determinant used in the hypothesis is the mathematical one -/
+theorem detR_def (m : Mat32.M3) : F32.detR m =
+    F32.toReal m.r1.x * (F32.toReal m.r2.y * F32.toReal m.r3.z - F32.toReal m.r2.z * F32.toReal m.r3.y)
+    - F32.toReal m.r1.y * (F32.toReal m.r2.x * F32.toReal m.r3.z - F32.toReal m.r2.z * F32.toReal m.r3.x)
+    + F32.toReal m.r1.z * (F32.toReal m.r2.x * F32.toReal m.r3.y - F32.toReal m.r2.y * F32.toReal m.r3.x) := by
+  unfold F32.detR; ring
 
 end C19
